@@ -934,4 +934,154 @@ theorem txif_of_dd (E : Ell ℝ) (tphi : ℝ) (hem : E.e2m ≠ 0) (hw : 1 - E.e2
   have hsq : Real.sqrt (QZ ^ 2 - Q ^ 2) ≠ 0 := (Real.sqrt_pos.mpr hpos).ne'
   field_simp
 
+/-! ## corollaries for oblate and prolate (incl. spherical) ellipsoids -/
+
+theorem Deatanhe_mul_oblate (es x y : ℝ) (hes : 0 < es) (hx : |es * x| < 1) (hy : |es * y| < 1) :
+    Deatanhe (es ^ 2) es x y * (x - y) = eatanhe x es - eatanhe y es := by
+  by_cases h : x = y
+  · rw [h]; simp
+  · rw [Deatanhe_dd_oblate es x y hes hx hy h]
+    have : x - y ≠ 0 := sub_ne_zero.mpr h
+    field_simp
+
+theorem Deatanhe_mul_prolate (es x y : ℝ) (hes : es ≤ 0) (hprod : -1 < es * x * (es * y)) :
+    Deatanhe (-(es ^ 2)) es x y * (x - y) = eatanhe x es - eatanhe y es := by
+  by_cases h : x = y
+  · rw [h]; simp
+  · rw [Deatanhe_dd_prolate es x y hes hprod h]
+    have : x - y ≠ 0 := sub_ne_zero.mpr h
+    field_simp
+
+theorem abs_es_sn_lt (es t : ℝ) (h0 : 0 ≤ es) (h1 : es < 1) : |es * (t / hyp t)| < 1 := by
+  have ht := abs_lt_hyp t
+  have hp := hyp_pos t
+  rw [abs_mul, abs_of_nonneg h0, abs_div, abs_of_pos hp]
+  have : |t| / hyp t < 1 := (div_lt_one hp).mpr ht
+  have h0' : 0 ≤ |t| / hyp t := by positivity
+  nlinarith
+
+/-- the careful `nc` on an oblate ellipsoid (`0 < es < 1`, `e² = es²`) -/
+theorem lccNcCareful_oblate (E : Ell ℝ) (t1 t2 : ℝ) (hfm : 0 < E.fm) (h12 : t1 ≠ t2) (hes : 0 < E.es) (hes1 : E.es < 1) (he2 : E.e2 = E.es ^ 2)
+    (hψ : Real.arsinh t2 - eatanhe (t2 / hyp t2) E.es ≠ Real.arsinh t1 - eatanhe (t1 / hyp t1) E.es) :
+    let x1 := eatanhe (t1 / hyp t1) E.es
+    let x2 := eatanhe (t2 / hyp t2) E.es
+    let nd := lccNraw E (t1 / hyp t1) t1 (hyp t1) (E.fm * t1) (hyp (E.fm * t1)) (t2 / hyp t2) t2 (hyp t2) (E.fm * t2) (hyp (E.fm * t2))
+    lccNcCareful E nd.1 nd.2
+        (t1 / hyp t1) t1 (hyp t1) (Real.sinh x1) (hyp (Real.sinh x1)) x1 (tchiR t1 x1) (hyp (tchiR t1 x1)) (E.fm * t1) (hyp (E.fm * t1))
+        (t2 / hyp t2) t2 (hyp t2) (Real.sinh x2) (hyp (Real.sinh x2)) x2 (tchiR t2 x2) (hyp (tchiR t2 x2)) (E.fm * t2) (hyp (E.fm * t2))
+      = Real.sqrt (max 0 (1 - nd.1) * (1 + nd.1)) := by
+  intro x1 x2 nd
+  have a1 := abs_es_sn_lt E.es t1 hes.le hes1
+  have a2 := abs_es_sn_lt E.es t2 hes.le hes1
+  have a0 : |E.es * 1| < 1 := by rw [mul_one, abs_of_pos hes]; exact hes1
+  exact lccNcCareful_eq E t1 t2 x1 x2 hfm h12
+    (by rw [he2]; exact Deatanhe_mul_oblate E.es 1 _ hes a0 a1)
+    (by rw [he2]; exact Deatanhe_mul_oblate E.es 1 _ hes a0 a2)
+    (by rw [he2]; exact Deatanhe_mul_oblate E.es _ _ hes a1 a2)
+    (by rw [he2]; exact Deatanhe_mul_oblate E.es _ _ hes a2 a1) hψ
+
+/-- the careful `nc` on a prolate ellipsoid (`es ≤ 0`, `e² = −es²`) outside the class of finding F80: the three products
+    `e²·x·y` of the pairs `(1, sphi1)`, `(1, sphi2)`, `(sphi1, sphi2)` stay above `−1` -/
+theorem lccNcCareful_prolate (E : Ell ℝ) (t1 t2 : ℝ) (hfm : 0 < E.fm) (h12 : t1 ≠ t2) (hes : E.es ≤ 0) (he2 : E.e2 = -(E.es ^ 2))
+    (hp1 : -1 < E.es * 1 * (E.es * (t1 / hyp t1))) (hp2 : -1 < E.es * 1 * (E.es * (t2 / hyp t2)))
+    (hp12 : -1 < E.es * (t1 / hyp t1) * (E.es * (t2 / hyp t2)))
+    (hψ : Real.arsinh t2 - eatanhe (t2 / hyp t2) E.es ≠ Real.arsinh t1 - eatanhe (t1 / hyp t1) E.es) :
+    let x1 := eatanhe (t1 / hyp t1) E.es
+    let x2 := eatanhe (t2 / hyp t2) E.es
+    let nd := lccNraw E (t1 / hyp t1) t1 (hyp t1) (E.fm * t1) (hyp (E.fm * t1)) (t2 / hyp t2) t2 (hyp t2) (E.fm * t2) (hyp (E.fm * t2))
+    lccNcCareful E nd.1 nd.2
+        (t1 / hyp t1) t1 (hyp t1) (Real.sinh x1) (hyp (Real.sinh x1)) x1 (tchiR t1 x1) (hyp (tchiR t1 x1)) (E.fm * t1) (hyp (E.fm * t1))
+        (t2 / hyp t2) t2 (hyp t2) (Real.sinh x2) (hyp (Real.sinh x2)) x2 (tchiR t2 x2) (hyp (tchiR t2 x2)) (E.fm * t2) (hyp (E.fm * t2))
+      = Real.sqrt (max 0 (1 - nd.1) * (1 + nd.1)) := by
+  intro x1 x2 nd
+  have hp21 : -1 < E.es * (t2 / hyp t2) * (E.es * (t1 / hyp t1)) := by linarith [mul_comm (E.es * (t1 / hyp t1)) (E.es * (t2 / hyp t2))]
+  exact lccNcCareful_eq E t1 t2 x1 x2 hfm h12
+    (by rw [he2]; exact Deatanhe_mul_prolate E.es 1 _ hes hp1)
+    (by rw [he2]; exact Deatanhe_mul_prolate E.es 1 _ hes hp2)
+    (by rw [he2]; exact Deatanhe_mul_prolate E.es _ _ hes hp12)
+    (by rw [he2]; exact Deatanhe_mul_prolate E.es _ _ hes hp21) hψ
+
+/-- Snyder's (15-8) for any ellipsoid on which `Deatanhe(sphi2, sphi1)` is a divided difference -/
+theorem lcc_n_snyder_gen (E : Ell ℝ) (t1 t2 x1 x2 : ℝ) (h12 : t1 ≠ t2)
+    (hDe : Deatanhe E.e2 E.es (t2 / hyp t2) (t1 / hyp t1) * (t2 / hyp t2 - t1 / hyp t1) = x2 - x1)
+    (hψ : Real.arsinh t2 - x2 ≠ Real.arsinh t1 - x1) :
+    (lccNraw E (t1 / hyp t1) t1 (hyp t1) (E.fm * t1) (hyp (E.fm * t1)) (t2 / hyp t2) t2 (hyp t2) (E.fm * t2) (hyp (E.fm * t2))).1 =
+      (Real.log (hyp (E.fm * t2)) - Real.log (hyp (E.fm * t1))) / ((Real.arsinh t2 - x2) - (Real.arsinh t1 - x1)) := by
+  obtain ⟨hden, hn⟩ := lccNraw_closed E t1 t2 x1 x2 h12 hDe
+  have hΔ : t2 - t1 ≠ 0 := sub_ne_zero.mpr (Ne.symm h12)
+  have hd : (Real.arsinh t2 - x2) - (Real.arsinh t1 - x1) ≠ 0 := sub_ne_zero.mpr hψ
+  set nd := lccNraw E (t1 / hyp t1) t1 (hyp t1) (E.fm * t1) (hyp (E.fm * t1)) (t2 / hyp t2) t2 (hyp t2) (E.fm * t2) (hyp (E.fm * t2))
+  have hden0 : nd.2 ≠ 0 := by
+    intro h; rw [h, zero_mul] at hden; exact hd hden.symm
+  rw [eq_div_iff hd, ← hden, ← hn hden0]; ring
+
+theorem ell_e_sq_prolate (E : Ell ℝ) (he2 : E.e2 < 0) : 0 < E.e ∧ E.e2 = -(E.e ^ 2) := by
+  constructor
+  · unfold Ell.e; simp only [sqrt_real, abs_real]; exact Real.sqrt_pos.mpr (abs_pos.mpr he2.ne)
+  · unfold Ell.e; simp only [sqrt_real, abs_real]
+    rw [Real.sq_sqrt (abs_nonneg _), abs_of_neg he2]; ring
+
+/-- **`txif` is the authalic tangent on a prolate ellipsoid** (`f < 0`, `e² < 0`) -/
+theorem txif_prolate (E : Ell ℝ) (tphi : ℝ) (hf : E.f < 0) (he2 : E.e2 < 0)
+    (hQ : (tphi / hyp tphi / (1 - E.e2 * (tphi / hyp tphi) ^ 2) + E.atanhee (tphi / hyp tphi)) ^ 2 < (1 / E.e2m + E.atanhee 1) ^ 2) :
+    txif E tphi =
+      (tphi / hyp tphi / (1 - E.e2 * (tphi / hyp tphi) ^ 2) + E.atanhee (tphi / hyp tphi)) /
+        Real.sqrt ((1 / E.e2m + E.atanhee 1) ^ 2 -
+          (tphi / hyp tphi / (1 - E.e2 * (tphi / hyp tphi) ^ 2) + E.atanhee (tphi / hyp tphi)) ^ 2) := by
+  obtain ⟨hepos, hesq⟩ := ell_e_sq_prolate E he2
+  have hp := hyp_pos tphi; have hlt := abs_lt_hyp tphi
+  have hsabs : |tphi / hyp tphi| < 1 := by rw [abs_div, abs_of_pos hp]; exact (div_lt_one hp).mpr hlt
+  obtain ⟨hs1, hs2⟩ := abs_lt.mp hsabs
+  have hem : E.e2m ≠ 0 := by
+    have : E.e2m = 1 - E.e2 := by unfold Ell.e2m; simp only [one_real]
+    rw [this]; linarith
+  have hw : 1 - E.e2 * (tphi / hyp tphi) ^ 2 ≠ 0 := by
+    have : 0 ≤ -E.e2 * (tphi / hyp tphi) ^ 2 := by have := sq_nonneg (tphi / hyp tphi); nlinarith
+    linarith
+  have hodd : E.atanhee (-(tphi / hyp tphi)) = -E.atanhee (tphi / hyp tphi) := by
+    have hnf : ¬ (0 < E.f) := not_lt.mpr hf.le
+    unfold Ell.atanhee atanhee
+    simp only [ltb_real, zero_real, hnf, hf, decide_false, decide_true, Bool.false_eq_true, if_false, if_true, atan_real]
+    rw [mul_neg, Real.arctan_neg]; ring
+  have hD1 : E.Datanhee 1 (tphi / hyp tphi) = (E.atanhee 1 - E.atanhee (tphi / hyp tphi)) / (1 - tphi / hyp tphi) := by
+    unfold Ell.Datanhee Ell.atanhee
+    rw [hesq]
+    exact Datanhee_dd_prolate E.f E.e 1 _ hf hepos (by linarith)
+  have hD2 : E.Datanhee 1 (-(tphi / hyp tphi)) = (E.atanhee 1 + E.atanhee (tphi / hyp tphi)) / (1 + tphi / hyp tphi) := by
+    have : E.Datanhee 1 (-(tphi / hyp tphi)) = (E.atanhee 1 - E.atanhee (-(tphi / hyp tphi))) / (1 - -(tphi / hyp tphi)) := by
+      unfold Ell.Datanhee Ell.atanhee
+      rw [hesq]
+      exact Datanhee_dd_prolate E.f E.e 1 _ hf hepos (by linarith)
+    rw [this, hodd]; congr 1 <;> ring
+  exact txif_of_dd E tphi hem hw hD1 hD2 hQ
+
+/-- on a sphere the authalic latitude is the geographic latitude: `txif = id` -/
+theorem txif_sphere (a tphi : ℝ) : txif (⟨a, 0⟩ : Ell ℝ) tphi = tphi := by
+  have he2 : (⟨a, 0⟩ : Ell ℝ).e2 = 0 := by simp [Ell.e2]
+  have hem : (⟨a, 0⟩ : Ell ℝ).e2m = 1 := by simp [Ell.e2m, he2, one_real]
+  have hat : ∀ x : ℝ, (⟨a, 0⟩ : Ell ℝ).atanhee x = x := by
+    intro x; simp [Ell.atanhee, atanhee, ltb_real, zero_real]
+  have hp := hyp_pos tphi; have hlt := abs_lt_hyp tphi; have hh := hyp_sq tphi
+  have hsabs : |tphi / hyp tphi| < 1 := by rw [abs_div, abs_of_pos hp]; exact (div_lt_one hp).mpr hlt
+  obtain ⟨hs1, hs2⟩ := abs_lt.mp hsabs
+  have hDs : ∀ y : ℝ, y ≠ 1 → (⟨a, 0⟩ : Ell ℝ).Datanhee 1 y = ((⟨a, 0⟩ : Ell ℝ).atanhee 1 - (⟨a, 0⟩ : Ell ℝ).atanhee y) / (1 - y) := by
+    intro y hy
+    unfold Ell.Datanhee Ell.atanhee
+    rw [he2]
+    exact Datanhee_dd_sphere _ 1 y (Ne.symm hy)
+  have h := txif_of_dd (⟨a, 0⟩ : Ell ℝ) tphi (by rw [hem]; norm_num) (by rw [he2]; norm_num) (hDs _ (by linarith))
+    (by rw [hDs _ (by linarith), hat, hat, hat]; congr 1 <;> ring)
+    (by rw [he2, hem, hat, hat]
+        have : (tphi / hyp tphi / (1 - 0 * (tphi / hyp tphi) ^ 2) + tphi / hyp tphi) ^ 2 = 4 * (tphi / hyp tphi) ^ 2 := by ring
+        rw [this]
+        have : (tphi / hyp tphi) ^ 2 < 1 := by nlinarith
+        nlinarith)
+  rw [h, he2, hem, hat, hat]
+  have e1 : tphi / hyp tphi / (1 - 0 * (tphi / hyp tphi) ^ 2) + tphi / hyp tphi = 2 * (tphi / hyp tphi) := by ring
+  rw [e1]
+  have e2 : ((1 : ℝ) / 1 + 1) ^ 2 - (2 * (tphi / hyp tphi)) ^ 2 = (2 / hyp tphi) ^ 2 := by
+    field_simp; linear_combination 4 * hh
+  rw [e2, Real.sqrt_sq (by positivity)]
+  field_simp
+
 end GeoVerif.Proofs.ConicInit
